@@ -108,6 +108,29 @@ def run_case(o, case):
     return info
 
 
+def run_seq(case):
+    """several evaluations on ONE object, as the pipeline does (the same likelihood object evaluates every function of a library).
+    A step's prediction is a given vector/scalar, or "alias_x": the model function returns the very array it was given
+    (sympy.lambdify(x, x), ESR's complexity-1 function `x`).  Reports every step's value and whether the data attributes the
+    object was created with are still what they were."""
+    o = make(case)
+    keep = {k: np.array(getattr(o, k), copy=True) for k in ("xvar", "yvar", "yerr", "inv_cov") if hasattr(o, k)}
+    out = []
+    for p in case["steps"]:
+        if p["kind"] == "alias_x":
+            def eq_numpy(x, *a):
+                return x
+            try:
+                r = classify(o.negloglike([], eq_numpy))
+            except Exception as e:
+                r = ["raise", type(e).__name__]
+        else:
+            r = run_case(o, {"pred": p})["r"]
+        same = all(np.array_equal(np.asarray(getattr(o, k)), v, equal_nan=True) for k, v in keep.items())
+        out.append({"r": r, "data_unchanged": bool(same)})
+    return {"steps": out}
+
+
 def ctor_case(case, tmp):
     """build the object through its real constructor from a data file, report the attributes negloglike reads"""
     name = case["cls"]
@@ -155,6 +178,9 @@ def main():
     if req["mode"] == "cases":
         for case in req["cases"]:
             out.append(run_case(make(case), case))
+    elif req["mode"] == "seq":
+        for case in req["cases"]:
+            out.append(run_seq(case))
     elif req["mode"] == "ctor":
         tmp = os.environ.get("ESRV_TMP", "/var/tmp")
         for case in req["cases"]:
